@@ -397,10 +397,10 @@ fn handle(w: &mut World, cap: &mut Capture, line: &str) -> String {
         "FUEL" => "ok".to_string(),
         "NEW" => {
             let i: i64 = words[1].parse().unwrap();
-            let mut it = Interpreter::<f32>::default();
+            // the public constructors: new_with_stdlib() for a standard instance, default() for a bare one
+            let mut it = if words[2] == "std" { Interpreter::<f32>::new_with_stdlib() } else { Interpreter::<f32>::default() };
             it.register_library_factory(tick_factory());
             it.register_library_factory(lib4_factory());
-            if words[2] == "std" { it.import_stdlib(); }
             w.insts.insert(i, it);
             "ok".to_string()
         }
@@ -681,7 +681,12 @@ fn handle(w: &mut World, cap: &mut Capture, line: &str) -> String {
     }
 }
 
-fn run_case(lines: Vec<String>, cap_path: PathBuf, scratch: PathBuf, case_no: usize) -> Vec<String> {
+fn run_case(lines: Vec<String>, cap_path: PathBuf, scratch: PathBuf, case_no: usize) -> (Vec<String>, bool) {
+    // a line that does not answer within the limit (an evaluation that does not terminate) is reported as
+    // (timeout), and so is the rest of its case; the caller then hands the remaining cases to a fresh process
+    let limit = std::env::var("VHARNESS_LINE_TIMEOUT").ok().and_then(|v| v.parse::<u64>().ok()).unwrap_or(30);
+    let n = lines.len();
+    let (tx, rx) = std::sync::mpsc::channel::<String>();
     let handle_thread = std::thread::Builder::new()
         .stack_size(1 << 30)
         .spawn(move || {
@@ -697,26 +702,39 @@ fn run_case(lines: Vec<String>, cap_path: PathBuf, scratch: PathBuf, case_no: us
             ruschm::verif::reset();
             TICKS.with(|t| t.borrow_mut().clear());
             let mut w = World { insts: HashMap::new(), vecs: Vec::new(), root: root.clone() };
-            let mut out = Vec::new();
             for line in &lines {
                 let r = catch_unwind(AssertUnwindSafe(|| handle(&mut w, &mut cap, line)));
-                match r {
-                    Ok(s) => out.push(s),
+                let s = match r {
+                    Ok(s) => s,
                     Err(_) => {
                         ruschm::verif::reset();
                         TICKS.with(|t| t.borrow_mut().clear());
                         cap.take();
-                        out.push("(panic)".to_string())
+                        "(panic)".to_string()
                     }
-                }
+                };
+                if tx.send(s).is_err() { return; }
             }
             drop(w);
             std::env::set_current_dir("/").ok();
             std::fs::remove_dir_all(&root).ok();
-            out
         })
         .unwrap();
-    handle_thread.join().unwrap()
+    let mut out = Vec::new();
+    let mut timed_out = false;
+    for _ in 0..n {
+        match rx.recv_timeout(std::time::Duration::from_secs(limit)) {
+            Ok(s) => out.push(s),
+            Err(std::sync::mpsc::RecvTimeoutError::Timeout) => { timed_out = true; break; }
+            Err(std::sync::mpsc::RecvTimeoutError::Disconnected) => break,
+        }
+    }
+    if timed_out {
+        while out.len() < n { out.push("(timeout)".to_string()); }
+        return (out, true);
+    }
+    handle_thread.join().unwrap();
+    (out, false)
 }
 
 fn main() {
@@ -732,25 +750,50 @@ fn main() {
     let mut out = unsafe { File::from_raw_fd(saved) };
 
     let stdin = io::stdin();
+    let all: Vec<String> = stdin.lock().lines().map(|l| l.unwrap()).collect();
     let mut case: Vec<String> = Vec::new();
     let mut case_no = 0usize;
     let mut pending_reset = false;
-    let mut flush_case = |case: &mut Vec<String>, pending_reset: bool, out: &mut File, case_no: &mut usize| {
+    // returns true when the case ran into the time limit
+    let mut flush_case = |case: &mut Vec<String>, pending_reset: bool, out: &mut File, case_no: &mut usize| -> bool {
+        let mut timed_out = false;
         if pending_reset { writeln!(out, "ok").unwrap(); }
         if !case.is_empty() {
             let lines = std::mem::take(case);
             *case_no += 1;
-            for l in run_case(lines, cap_path.clone(), scratch.clone(), *case_no) {
+            let (res, t) = run_case(lines, cap_path.clone(), scratch.clone(), *case_no);
+            timed_out = t;
+            for l in res {
                 writeln!(out, "{}", l).unwrap();
             }
         }
         out.flush().unwrap();
+        timed_out
     };
-    for line in stdin.lock().lines() {
-        let line = line.unwrap();
+    // the evaluation that ran into the limit still occupies its thread: the remaining input goes to a fresh process
+    let hand_over = |rest: &[String], out: &File, scratch: &PathBuf| -> ! {
+        if !rest.is_empty() {
+            let exe = std::env::current_exe().unwrap();
+            let mut child = std::process::Command::new(exe)
+                .stdin(std::process::Stdio::piped())
+                .stdout(std::process::Stdio::from(out.try_clone().unwrap()))
+                .spawn()
+                .unwrap();
+            {
+                let mut cin = child.stdin.take().unwrap();
+                for l in rest { writeln!(cin, "{}", l).unwrap(); }
+            }
+            child.wait().ok();
+        }
+        std::fs::remove_dir_all(scratch).ok();
+        std::process::exit(0);
+    };
+    for (idx, line) in all.iter().enumerate() {
         if line.is_empty() { continue; }
         if line == "RESET" {
-            flush_case(&mut case, pending_reset, &mut out, &mut case_no);
+            if flush_case(&mut case, pending_reset, &mut out, &mut case_no) {
+                hand_over(&all[idx..], &out, &scratch);
+            }
             pending_reset = true;
         } else {
             if case.is_empty() && pending_reset {
@@ -758,10 +801,12 @@ fn main() {
                 writeln!(out, "ok").unwrap();
                 pending_reset = false;
             }
-            case.push(line);
+            case.push(line.clone());
         }
     }
-    flush_case(&mut case, pending_reset, &mut out, &mut case_no);
+    if flush_case(&mut case, pending_reset, &mut out, &mut case_no) {
+        hand_over(&[], &out, &scratch);
+    }
     drop(out);
     std::fs::remove_dir_all(&scratch).ok();
 }
